@@ -233,14 +233,21 @@ class NonShearMonitor:
         wq = wq / wq.sum()
         sg = U.KB_RY * (numpy.where(mask, g, 0).sum(-1) * wq).sum(-1)            # (ntv,)
         with numpy.errstate(all="ignore"):
-            out["_classical"] = t[:, None] / v[None, :] * sg[None, :] ** 2 / (9 * ei * ej)[None, :] / numpy.abs(cv)
+            out["_classical"] = t[:, None] / v[None, :] * sg[None, :] ** 2 / numpy.abs(9 * ei * ej)[None, :] / numpy.abs(cv)
         # cancellation-aware magnitude: sum_qm gamma Q2 can pass through zero when gammas have mixed signs
         ra = fph.closed_form_from_arrays(calc.freq_array, g, calc.mode_gamma[0], _weights(calc), t, v, ei, ej, True)
         with numpy.errstate(all="ignore"):
-            out["_abs"] = t[:, None] / v[None, :] * ra["dsdx"] ** 2 / (9 * ei * ej)[None, :] / numpy.abs(cv)
+            out["_abs"] = t[:, None] / v[None, :] * ra["dsdx"] ** 2 / numpy.abs(9 * ei * ej)[None, :] / numpy.abs(cv)
         return out
 
-    def on_gap(self, obj, name, value):
+    def judge_returned_values(self, obj, adi, iso):
+        """The same judgement at the boundary: value_adiabatic - value_isothermal as the caller received them (independent of
+        which class or method produced the correction - an override in a subclass never passes through the hook above)."""
+        with numpy.errstate(all="ignore"):
+            d = numpy.asarray(adi) - numpy.asarray(iso)
+        self.on_gap(obj, "value_adiabatic - value_isothermal", d, extra_abs=4e-16 * numpy.abs(numpy.asarray(iso)), tag=":returned-values")
+
+    def on_gap(self, obj, name, value, extra_abs=0.0, tag=""):
         if not self.judge_gap:
             return
         ctx = self.ctx
@@ -250,7 +257,7 @@ class NonShearMonitor:
         t = numpy.asarray(calc.t_array, dtype=float)
         cv = numpy.asarray(calc.qha_calculator.volume_base.heat_capacity, dtype=float)
         gap = numpy.asarray(value)
-        ctx.count("monitor:gap_objects")
+        ctx.count("monitor:gap_objects" + tag)
         try:
             refs = self.gap_reference(obj)
         except Exception as exc:
@@ -258,7 +265,7 @@ class NonShearMonitor:
             return
         z = t == 0
         if z.any() and numpy.any(gap[z] != 0):
-            ctx.violation(f"{kind}:gap:nonzero-at-T0", f"adiabatic-isothermal gap at T=0 is {gap[z].ravel()[:3]}", cid)
+            ctx.violation(f"{kind}:gap:nonzero-at-T0{tag}", f"adiabatic-isothermal gap at T=0 is {gap[z].ravel()[:3]}", cid)
         ok = (cv > 0) & (t[:, None] > 0) & numpy.isfinite(cv)
         if numpy.iscomplexobj(gap):
             ctx.violation(f"{kind}:gap:complex", "gap is complex", cid)
@@ -273,18 +280,18 @@ class NonShearMonitor:
         absmag = refs.pop("_abs")
         for src, (ref, tol) in refs.items():
             scale = numpy.maximum(numpy.abs(ref), absmag) + 1e-9 * classical + 1e-300
-            e = numpy.where(ok, numpy.abs(gap - ref) / scale / tol, 0)
+            e = numpy.where(ok, numpy.abs(gap - ref) / (scale * tol + extra_abs), 0)
             nz = ok & (numpy.abs(ref) > 1e-9 * classical)
             if nz.any():
                 ctx.count("monitor:gap_points_nontrivial", int(nz.sum()))
                 emax = e[nz].max()
-                ctx.maxi(f"gap_err/tol[{src}]", emax)
+                ctx.maxi(f"gap_err/tol[{src}]{tag}", emax)
                 if not (emax <= 1.0):
                     i = numpy.argwhere(nz & (e >= emax))[0]
-                    ctx.violation(f"{kind}:gap:mismatch[{src}]",
+                    ctx.violation(f"{kind}:gap:mismatch[{src}]{tag}",
                                   f"gap {gap[tuple(i)]!r} vs T V (dP/dT)^2/(9 e_i e_j C_V) = {ref[tuple(i)]!r} "
                                   f"(ratio {gap[tuple(i)] / ref[tuple(i)]:.6g}) at T={t[i[0]]}", cid)
-        if same_index and ok.any() and numpy.any(gap[ok] < -1e-12 * numpy.abs(gap[ok]).max()):
+        if same_index and ok.any() and numpy.any(gap[ok] < -1e-12 * numpy.abs(gap[ok]).max() - numpy.max(extra_abs)):
             ctx.violation(f"{kind}:gap:negative-on-diagonal", f"diagonal gap negative with C_V>0: min {gap[ok].min()!r}", cid)
 
     def on_adiabatic(self, obj, val):
